@@ -103,3 +103,25 @@ package validatorapi
 //@ loop 3 invariant true
 //@ loop 4 invariant true
 //@ loop 5 invariant true
+
+// The VC-submitted proposal must be the agreed one: same proposer, blinded flag, version and the same
+// hash tree root of the version's block (the pair compared is the one selected by version and blinded flag).
+//@ pure eth2api.VersionedProposal.ProposerIndex eth2api.VersionedSignedProposal.ProposerIndex ssz.HashRoot.HashTreeRoot
+//@ func propDataMatchesDuty
+//@ props C10
+//@ ensures result == nil ==> opts.Proposal.Blinded == prop.Blinded && opts.Proposal.Version == prop.Version
+//@ ensures result == nil ==> res(1, prop.ProposerIndex()) == nil && res(1, opts.Proposal.ProposerIndex()) == nil && res(0, prop.ProposerIndex()) == res(0, opts.Proposal.ProposerIndex())
+//@ ensures result == nil ==> ncalls(checkHashes) == 1
+//@ callreq checkHashes: prop.Version == eth2spec.DataVersionPhase0 ==> a1 == prop.Phase0 && a2 == opts.Proposal.Phase0.Message
+//@ callreq checkHashes: prop.Version == eth2spec.DataVersionAltair ==> a1 == prop.Altair && a2 == opts.Proposal.Altair.Message
+//@ callreq checkHashes: prop.Version == eth2spec.DataVersionBellatrix ==> ite(prop.Blinded, a1 == prop.BellatrixBlinded && a2 == opts.Proposal.BellatrixBlinded.Message, a1 == prop.Bellatrix && a2 == opts.Proposal.Bellatrix.Message)
+//@ callreq checkHashes: prop.Version == eth2spec.DataVersionCapella ==> ite(prop.Blinded, a1 == prop.CapellaBlinded && a2 == opts.Proposal.CapellaBlinded.Message, a1 == prop.Capella && a2 == opts.Proposal.Capella.Message)
+//@ callreq checkHashes: prop.Version == eth2spec.DataVersionDeneb ==> ite(prop.Blinded, a1 == prop.DenebBlinded && a2 == opts.Proposal.DenebBlinded.Message, a1 == prop.Deneb.Block && a2 == opts.Proposal.Deneb.SignedBlock.Message)
+//@ callreq checkHashes: prop.Version == eth2spec.DataVersionElectra ==> ite(prop.Blinded, a1 == prop.ElectraBlinded && a2 == opts.Proposal.ElectraBlinded.Message, a1 == prop.Electra.Block && a2 == opts.Proposal.Electra.SignedBlock.Message)
+//@ callreq checkHashes: prop.Version == eth2spec.DataVersionFulu ==> ite(prop.Blinded, a1 == prop.FuluBlinded && a2 == opts.Proposal.FuluBlinded.Message, a1 == prop.Fulu.Block && a2 == opts.Proposal.Fulu.SignedBlock.Message)
+//@ callreq checkHashes: prop.Version >= eth2spec.DataVersionPhase0 && prop.Version <= eth2spec.DataVersionFulu
+
+// checkHashes accepts only equal roots
+//@ func propDataMatchesDuty$1
+//@ props C10
+//@ ensures result == nil ==> d2 != nil && res(1, d1.HashTreeRoot()) == nil && res(1, d2.HashTreeRoot()) == nil && res(0, d1.HashTreeRoot()) == res(0, d2.HashTreeRoot())
